@@ -217,6 +217,12 @@ func (m *c07Cluster) boundary(c *cluster, final bool) {
 		if p == nil {
 			continue
 		}
+		if h.s.IsStalled(n.node) {
+			// (a stalled server executes nothing, the reading task included: waiting for it would wait the
+			// stall out and nothing would ever happen during a stall)
+			h.s.Count("probe.view_skipped_server_stalled")
+			continue
+		}
 		var st c07State
 		var isLeading bool
 		var applied, commit uint64
